@@ -380,7 +380,7 @@ func successReturns(fn *ssa.Function) []ssa.Instruction {
 }
 
 // callees whose error-typed result is not a failure of the operation under analysis
-var errGateIgnore = []string{"fmt.Errorf", "errors.New", "klog.*", "(klog.Verbose).*", "status.Errorf", "status.Error", "fmt.Fprintf", "fmt.Fprintln", "fmt.Printf", "fmt.Println"}
+var errGateIgnore = []string{"iface(hash.Hash).Write", "fmt.Errorf", "errors.New", "klog.*", "(klog.Verbose).*", "status.Errorf", "status.Error", "fmt.Fprintf", "fmt.Fprintln", "fmt.Printf", "fmt.Println"}
 
 // ErrorsGate: for every call in fn matching calleeGlob whose last result is
 // an error: once that error is non-nil, no success return of fn may execute
@@ -623,9 +623,9 @@ func wantErr(zeroOthers bool) func(r *Run, ret *ssa.Return) (bool, string) {
 	}
 }
 
-func nilAtom(pat string) RuleAtom     { return RuleAtom{Pat: "nil?" + pat} }
-func boolAtom(pat string) RuleAtom    { return RuleAtom{Pat: pat} }
-func ordAtomR(a, b string) RuleAtom   { return RuleAtom{OrdA: a, OrdB: b} }
+func nilAtom(pat string) RuleAtom   { return RuleAtom{Pat: "nil?" + pat} }
+func boolAtom(pat string) RuleAtom  { return RuleAtom{Pat: pat} }
+func ordAtomR(a, b string) RuleAtom { return RuleAtom{OrdA: a, OrdB: b} }
 
 // ---- struct construction ------------------------------------------------------
 
